@@ -65,5 +65,6 @@ def main (args : List String) : IO UInt32 := do
   | ["c06"] => loopPure stdin stdout Ocpp.Drv.stepC06; pure 0
   | ["wsadmit"] => loopPure stdin stdout Ocpp.Drv.stepWsAdmit; pure 0
   | ["wssrv"] => loopGen stdin stdout Ocpp.Drv.stepWsSrv {}; pure 0
+  | ["wsio"] => loopGen stdin stdout Ocpp.Drv.stepWsIO {}; pure 0
   | ["datetime"] => loopPure stdin stdout Ocpp.Drv.stepDateTime; pure 0
   | _ => IO.eprintln "usage: driver <suite>"; pure 2
